@@ -1,7 +1,7 @@
 (* C19 — The legacy configuration format round-trips an instance: property theorems. *)
 From Coq Require Import String List Bool ZArith.
 Require Import V.Lib.PyStr V.Lib.JTree V.Dosini.Codec V.Dosini.Generated V.Dosini.Model V.Dosini.Proofs V.Dosini.Tables
-  V.Dosini.Text V.Dosini.TextProofs V.Dosini.FileProofs V.Dosini.Stages.
+  V.Dosini.Text V.Dosini.TextProofs V.Dosini.FileProofs V.Dosini.Stages V.Dosini.Envs V.Dosini.EnvsProofs V.Dosini.Backends.
 Import ListNotations.
 Open Scope string_scope.
 
@@ -131,6 +131,42 @@ Theorem C19_text_lines :
 Proof. exact lines_table. Qed.
 Print Assumptions C19_text_lines.
 
+(* The environment file (experiment.instance.conf): for EVERY set of environments - any number of them, each with any number
+   of variables, ZERO included - with names distinct ignoring case and none called SANDBOX, and lists of application
+   dependencies / virtual environments whose items are non-empty, comma-free and blank-free at their ends: when the sections
+   the writer produces are inside the guard of the text layer, writing the file (Text.write_table), reading the text
+   (Text.read_text), environment_to_dict and parse_environment_dicts give the document back with its environment names
+   upper-cased - same environments, same order of variables, same two lists.  An environment without variables is written as a
+   section without entries and comes back as an environment without variables. *)
+Theorem C19_environments_through_file :
+  forall r t, root_ok r = true -> write_root r = Some t -> table_ok t = true -> root_via_file r = Some (upper_names r).
+Proof. exact root_roundtrip. Qed.
+Print Assumptions C19_environments_through_file.
+
+Theorem C19_empty_environment_kept :
+  forall r t n, root_ok r = true -> write_root r = Some t -> table_ok t = true -> In (n, []) (r_envs r) ->
+  exists r', root_via_file r = Some r' /\ In (upper n, []) (r_envs r') /\ length (r_envs r') = length (r_envs r).
+Proof. exact empty_environment_kept. Qed.
+Print Assumptions C19_empty_environment_kept.
+
+(* Backend-specific options, on the tables measured at this run: every name Dosini.options_for_backend lists for any backend
+   the code knows (Generated.backend_options) is either not a key of the format - then it is a plain variable of the component
+   and is read back as that variable with its text, for every text - or a key with a reader row whose option the writers emit
+   under that very key (so C19_component covers it). *)
+Theorem C19_backend_options :
+  forall b ns n, In (b, ns) backend_options -> In n ns ->
+  (mem n known_keys = false /\ forall v, parse_c [(n, v)] = Some (mkComp [] [(n, v)])) \/
+  (exists path p ex d, lookup n parse_table = Some (path, p, ex) /\ lookup path dump_table = Some (n, d)).
+Proof. exact backend_options_survive. Qed.
+Print Assumptions C19_backend_options.
+
+(* Several loads in one process: in the model a load is a function of the section alone - the result of the k-th load of a
+   sequence is the result of that load on its own.  (The code under test is held to this by stream P of the correspondence.) *)
+Theorem C19_loads_independent :
+  forall before i after, nth_error (load_seq (before ++ i :: after)) (length before) = Some (parse_c i).
+Proof. exact loads_independent. Qed.
+Print Assumptions C19_loads_independent.
+
 (* non-vacuity: a component of every value kind, a reference held by an int, a float and a bool option,
    and two variables; it satisfies the hypotheses of C19_component and round-trips by computation *)
 Definition example_comp : comp :=
@@ -167,6 +203,10 @@ Definition example_table : table :=
             ("Mixed_Case", "#first"); ("job-type", "lsf")]);
    ("a]b", [])].
 
+Definition example_root : root :=
+  mkRoot [("clean", []); ("gpu-env", [("PATH", "/opt/bin:$PATH"); ("DEFAULTS", "PATH:LD_LIBRARY_PATH")]); ("Bare", [])]
+         ["App.application"; "b.application"] ["venvs/one"].
+
 Example C19_example :
   wf_comp dump_table parse_table known_keys example_comp = true /\
   forallb (fun o => expressible (fst o)) (opts example_comp) = true /\
@@ -185,5 +225,17 @@ Example C19_example :
   (* stage indices of one and two digits *)
   write_stages [2; 10; 11]%N = "stage2,stage10,stage11" /\
   read_stages "stage2, Stage10 ,,STAGE11" = Some [2; 10; 11]%N /\
-  status_index "STAGE12" = Some 12%N.
+  status_index "STAGE12" = Some 12%N /\
+  (* environments: two without variables (one of them the only content of its kind), names in mixed case, both lists *)
+  root_ok example_root = true /\
+  match write_root example_root with Some t => table_ok t | None => false end = true /\
+  write_root example_root =
+    Some [("SANDBOX", [("applications", "App.application,b.application"); ("virtualenvs", "venvs/one")]);
+          ("ENV-CLEAN", []); ("ENV-GPU-ENV", [("PATH", "/opt/bin:$PATH"); ("DEFAULTS", "PATH:LD_LIBRARY_PATH")]); ("ENV-BARE", [])] /\
+  root_via_file example_root = Some (upper_names example_root) /\
+  root_via_file (mkRoot [("clean", [])] [] []) = Some (mkRoot [("CLEAN", [])] [] []) /\
+  (* a backend option that the format keeps as a variable, loaded after a component of that backend *)
+  existsb (fun b => negb (forallb (fun n => mem n known_keys) (snd b))) backend_options = true /\
+  nth_error (load_seq [[("job-type", "simulator"); ("sim_expected_exit_code", "1")]; [("sim_expected_exit_code", "24 0")]]) 1 =
+    Some (Some (mkComp [] [("sim_expected_exit_code", "24 0")])).
 Proof. vm_compute. repeat split; reflexivity. Qed.
